@@ -126,7 +126,8 @@ def constants_snapshot(wb):
 REF_SHEETS = {
     'Data': {'A1': 2, 'A2': 3, 'A3': 5, 'B1': '=A1*10', 'B2': '=SUM(A1:A3)', 'B3': '=B1+B2', 'C1': "='Data 2'!B1+B1", 'C2': '=rate*2',
              'C3': '=base+rate', 'C4': "=SUM('Data 2'!A1:A3)+SUM(A1:A3)", 'C5': "='Data 2'!C5+A1", 'C6': '=SUM($A$1:A$3)+$A2', 'C7': '=Z9+1',
-             'C8': '=COUNTA(A1:A9)', 'C9': '=A5+1', 'C10': '=A6&"x"', 'C11': '=IF(A7,"t","empty is false")', 'C12': '=SUM(A1:A9)'},
+             'C8': '=COUNTA(A1:A9)', 'C9': '=A5+1', 'C10': '=A6&"x"', 'C11': '=IF(A7,"t","empty is false")', 'C12': '=SUM(A1:A9)',
+             'C13': "=SUM('Data 2'!B1:B2)+MAX('Data 2'!B1:B3)", 'C14': "=SUM(B1:B3)+SUM('Data 2'!B1:B2)"},
     'Data 2': {'A1': 100, 'A2': 200, 'A3': 300, 'B1': '=SUM(A1:A3)', 'B2': '=A1*10', 'B3': '=Data!B3+B1', 'C1': '=Data!C1+B2', 'C5': '=B2+A2',
                'C6': "=Data!C5+'Data 2'!A1"},
     "It's": {'A1': 7, 'B2': "='It''s'!A1*2", 'B3': "=SUM('It''s'!A1:A1)+Data!A1", 'B4': '=$A$1+A$1+$A1', 'B5': "='Data 2'!$B$2+'It''s'!$A$1"},
@@ -134,7 +135,7 @@ REF_SHEETS = {
 REF_NAMES = {'rate': "'Data 2'!$A$2", 'base': 'Data!$A$3'}
 REF_EXPECTED = {
     'Data!B1': 20, 'Data!B2': 10, 'Data!B3': 30, 'Data!C1': 620, 'Data!C2': 400, 'Data!C3': 205, 'Data!C4': 610, 'Data!C5': 1202, 'Data!C6': 13,
-    'Data!C7': 1, 'Data!C8': 3, 'Data!C9': 1, 'Data!C10': 'x', 'Data!C11': 'empty is false', 'Data!C12': 10,
+    'Data!C7': 1, 'Data!C8': 3, 'Data!C9': 1, 'Data!C10': 'x', 'Data!C11': 'empty is false', 'Data!C12': 10, 'Data!C13': 2600, 'Data!C14': 1660,
     'Data 2!B1': 600, 'Data 2!B2': 1000, 'Data 2!B3': 630, 'Data 2!C1': 1620, 'Data 2!C5': 1200, 'Data 2!C6': 1302,
     "It's!B2": 14, "It's!B3": 9, "It's!B4": 21, "It's!B5": 1007, 'rate': 200, 'base': 5,
 }
